@@ -129,6 +129,10 @@ def initDim (t : Ty) {n : Nat} (f : Fin n → Int × Int) : M (Box n) :=
   let results := Vector.ofFn f
   mkPosSize t (Vector.ofFn fun i => results[i].1) (Vector.ofFn fun i => results[i].2)
 
+/-- the calls of `_function` made by `init_max` / `init_dim`: `array::init` evaluates it exactly once per index, in index
+    order, before any of the two vectors is built -/
+def initTrace (n : Nat) : List Nat := (List.finRange n).map (·.val)
+
 /-- `null<Box>()`: `Box(vector::null, dim::null)` -/
 def null (t : Ty) (n : Nat) : M (Box n) := mkPosSize t (vzero n) (vzero n)
 
@@ -312,17 +316,19 @@ inductive Instr where
   | px   -- at<0>(A.pos()) = at<0>(V)      (N ≥ 1)
   | vp   -- V = A.pos()
   | vm   -- V = A.max()
+  | xa   -- A = intersection(A, A)
+  | xe   -- A = extend_bounding_box(A, A)
   deriving DecidableEq, Repr
 
 def Instr.all : List Instr :=
   [.pv, .mv, .pm, .mp, .pb, .mb, .pbm, .sw, .ss, .sc, .cp, .sa, .mo, .sm, .xi, .xb, .xv, .xm, .sh, .st, .shp, .stm,
-   .ni, .ps, .ce, .px, .vp, .vm]
+   .ni, .ps, .ce, .px, .vp, .vm, .xa, .xe]
 
 def Instr.code : Instr → String
   | .pv => "pv" | .mv => "mv" | .pm => "pm" | .mp => "mp" | .pb => "pb" | .mb => "mb" | .pbm => "pbm"
   | .sw => "sw" | .ss => "ss" | .sc => "sc" | .cp => "cp" | .sa => "sa" | .mo => "mo" | .sm => "sm"
   | .xi => "xi" | .xb => "xb" | .xv => "xv" | .xm => "xm" | .sh => "sh" | .st => "st" | .shp => "shp" | .stm => "stm"
-  | .ni => "ni" | .ps => "ps" | .ce => "ce" | .px => "px" | .vp => "vp" | .vm => "vm"
+  | .ni => "ni" | .ps => "ps" | .ce => "ce" | .px => "px" | .vp => "vp" | .vm => "vm" | .xa => "xa" | .xe => "xe"
 
 structure St (n : Nat) where
   a : Box n
@@ -359,6 +365,8 @@ def step (t : Ty) {n : Nat} (s : St n) : Instr → M (St n)
   | .px => if h : 0 < n then pure { s with a := setPos s.a (s.a.min.set 0 s.v[0]) } else pure s
   | .vp => pure { s with v := s.a.min }
   | .vm => pure { s with v := s.a.max }
+  | .xa => do let r ← intersection t s.a s.a; pure { s with a := r }
+  | .xe => pure { s with a := extendBox s.a s.a }
 
 /-- a statement sequence; the first fault (undefined behaviour) ends it -/
 def run (t : Ty) {n : Nat} (s : St n) : List Instr → M (St n)
